@@ -59,6 +59,8 @@ def parse_summary(path):
         p = line.split(" ")
         if p[0] == "hist" and len(p) == 3:
             d["hist"][p[1]] = int(p[2])
+        elif p[0] == "normdiff" and len(p) == 3:
+            d.setdefault("normdiff", {})[p[1]] = int(p[2])
         elif p[0] == "class" and len(p) == 4:
             d["class"]["%s-%s" % (p[1], p[2])] = int(p[3])
         elif p[0] in ("PROPFAIL", "FAIL"):
